@@ -15,11 +15,140 @@ use std::time::Duration;
 pub const SITE: &str = "mc::bmc (UnrollSmtEncoding, check_assuming, SmtLibSolverCtx)";
 
 pub fn gen_cfg() -> GenCfg {
-    GenCfg { max_states: 3, max_inputs: 2, max_width: 4, arrays: true, max_depth: 2, div: false, max_state_bits: 10, total: false }
+    GenCfg { max_states: 3, max_inputs: 2, max_width: 4, arrays: true, max_depth: 2, div: true, max_state_bits: 10, total: false }
 }
 
 pub fn spec_for(seed: u64, index: u64) -> SysSpec {
+    if index >= PROBE_BASE {
+        return probe_spec(index - PROBE_BASE).expect("probe index out of range");
+    }
     sysgen::generate(seed, "C02", index, &gen_cfg())
+}
+
+// ---------------------------------------------------------------------------------------------
+// operator probes: systems whose verdict depends on the *complete* function table of one operator
+// application f(a, b) at a small width. Added after an independently seeded change (a rebuilt `srem`
+// turned into `smod` by the per-step substitution) showed that random systems rarely make a verdict
+// hinge on the few operand pairs where two similar operators differ.
+//   inputs a, b : bv<w>;  states  r (next = f(a,b)),  ta (next = a),  tb (next = b),  started (init 0, next 1)
+//   bad0 = f(a,b) != TABLE(a,b)                       (combinational use, every step)
+//   bad1 = started && r != TABLE(ta,tb)               (use through a register: per-step substitution)
+// TABLE is a nested ite over literals computed by the harness' own big-integer evaluator; it is right for
+// every operand pair, so the expected verdict is Success ("safe"), or has one deliberately wrong entry
+// ("unsafe", expected Fail@0 - the vacuity guard of the probe).
+
+pub const PROBE_BASE: u64 = 1_000_000;
+
+use crate::bigeval::{self, Val};
+use crate::refsmt::{Op, Ty};
+use crate::shapes::Sh;
+use num_bigint::BigUint;
+
+fn sh_eval(e: &Sh, a: &BigUint, b: &BigUint) -> Val {
+    match e {
+        Sh::Sym(0, Ty::BV(w)) => Val::BV(a.clone(), *w),
+        Sh::Sym(_, Ty::BV(w)) => Val::BV(b.clone(), *w),
+        Sh::Sym(..) => unreachable!("probes have bit-vector inputs only"),
+        Sh::Lit(w, v) => Val::BV(v.clone(), *w),
+        Sh::Op(op, p, k) => {
+            let kv: Vec<Val> = k.iter().map(|c| sh_eval(c, a, b)).collect();
+            bigeval::eval_op(*op, *p, &kv)
+        }
+    }
+}
+
+pub fn probe_exprs(w: u32) -> Vec<(String, Sh)> {
+    let a = || Sh::Sym(0, Ty::BV(w));
+    let b = || Sh::Sym(1, Ty::BV(w));
+    let o = |op: Op, k: Vec<Sh>| Sh::Op(op, [0, 0], k);
+    let op2 = |op: Op, p: [u32; 2], k: Vec<Sh>| Sh::Op(op, p, k);
+    let bit0 = |x: Sh| op2(Op::Slice, [0, 0], vec![x]);
+    let mut v: Vec<(String, Sh)> = vec![];
+    for op in [Op::And, Op::Or, Op::Xor, Op::Shl, Op::Ashr, Op::Lshr, Op::Add, Op::Mul, Op::Sdiv, Op::Udiv, Op::Smod, Op::Srem, Op::Urem, Op::Sub, Op::Equal, Op::Ugt, Op::Sgt, Op::Uge, Op::Sge, Op::Concat] {
+        v.push((op.name().to_string(), o(op, vec![a(), b()])));
+    }
+    v.push(("not".into(), o(Op::Not, vec![a()])));
+    v.push(("neg".into(), o(Op::Neg, vec![a()])));
+    v.push(("zext".into(), op2(Op::ZeroExt, [2, 0], vec![a()])));
+    v.push(("sext".into(), op2(Op::SignExt, [2, 0], vec![a()])));
+    v.push(("slice-hi".into(), op2(Op::Slice, [w - 1, 1], vec![a()])));
+    v.push(("slice-lo".into(), op2(Op::Slice, [w - 2, 0], vec![a()])));
+    v.push(("ite".into(), o(Op::Ite, vec![bit0(b()), a(), o(Op::Neg, vec![a()])])));
+    // 1-bit (Bool) values in bit-vector positions and the other way round
+    v.push(("sext-of-bit".into(), op2(Op::SignExt, [w - 1, 0], vec![bit0(a())])));
+    v.push(("zext-of-bit".into(), op2(Op::ZeroExt, [w - 1, 0], vec![bit0(a())])));
+    v.push(("sext-of-cmp".into(), op2(Op::SignExt, [2, 0], vec![o(Op::Ugt, vec![a(), b()])])));
+    v.push(("concat-cmp".into(), o(Op::Concat, vec![o(Op::Sgt, vec![a(), b()]), a()])));
+    v.push(("eq-of-cmps".into(), o(Op::Equal, vec![o(Op::Ugt, vec![a(), b()]), o(Op::Sgt, vec![a(), b()])])));
+    v.push(("not-cmp".into(), o(Op::Not, vec![o(Op::Uge, vec![a(), b()])])));
+    v.push(("and-cmps".into(), o(Op::And, vec![o(Op::Ugt, vec![a(), b()]), o(Op::Sge, vec![a(), b()])])));
+    v.push(("xor-cmps".into(), o(Op::Xor, vec![o(Op::Uge, vec![a(), b()]), o(Op::Sge, vec![a(), b()])])));
+    v.push(("implies".into(), o(Op::Implies, vec![o(Op::Ugt, vec![a(), b()]), o(Op::Sgt, vec![a(), b()])])));
+    v.push(("ite-bool".into(), o(Op::Ite, vec![o(Op::Ugt, vec![a(), b()]), o(Op::Sge, vec![a(), b()]), o(Op::Equal, vec![a(), b()])])));
+    v.push(("neg-bit".into(), o(Op::Neg, vec![bit0(a())])));
+    v.push(("add-bits".into(), o(Op::Add, vec![bit0(a()), bit0(b())])));
+    v.push(("sge-bits".into(), o(Op::Sge, vec![bit0(a()), bit0(b())])));
+    v.push(("ashr-bits".into(), o(Op::Ashr, vec![bit0(a()), bit0(b())])));
+    // arrays: index width 2, data width w
+    let lo2 = |x: Sh| op2(Op::Slice, [1, 0], vec![x]);
+    let mem = || o(Op::ArrayStore, vec![op2(Op::ArrayConst, [2, w], vec![a()]), lo2(b()), o(Op::Neg, vec![a()])]);
+    v.push(("array-read-store-const".into(), o(Op::ArrayRead, vec![mem(), lo2(a())])));
+    v.push(("array-eq".into(), o(Op::ArrayEqual, vec![mem(), op2(Op::ArrayConst, [2, w], vec![a()])])));
+    v.push(("array-ite".into(), o(Op::ArrayRead, vec![o(Op::ArrayIte, vec![bit0(a()), mem(), op2(Op::ArrayConst, [2, w], vec![b()])]), lo2(b())])));
+    v
+}
+
+pub fn probe_count() -> u64 {
+    probe_exprs(3).len() as u64 * 2
+}
+
+/// probe index: 2*i = safe variant of expression i at width 3, 2*i+1 = unsafe variant; + 1000 = width 4
+pub fn probe_spec(pi: u64) -> Option<SysSpec> {
+    let w = if pi >= 1000 { 4 } else { 3 };
+    let i = ((pi % 1000) / 2) as usize;
+    let unsafe_variant = pi % 2 == 1;
+    let exprs = probe_exprs(w);
+    let (name, f) = exprs.get(i)?.clone();
+    let wo = f.ty().bv()?;
+    // function table by the harness' evaluator
+    let mut entries: Vec<(BigUint, BigUint)> = vec![];
+    for x in 0..(1u32 << w) {
+        for y in 0..(1u32 << w) {
+            let (xa, yb) = (BigUint::from(x), BigUint::from(y));
+            let val = match sh_eval(&f, &xa, &yb) {
+                Val::BV(v, _) => v,
+                _ => return None,
+            };
+            entries.push((BigUint::from((x << w) | y), val));
+        }
+    }
+    if unsafe_variant {
+        let k = (i * 7 + 3) % entries.len();
+        entries[k].1 = (&entries[k].1 + 1u32) % (BigUint::from(1u32) << wo);
+    }
+    let table = |a: Sh, b: Sh| -> Sh {
+        let key = Sh::Op(Op::Concat, [0, 0], vec![a, b]);
+        let mut t = Sh::Lit(wo, entries[0].1.clone());
+        for (k, v) in entries.iter().skip(1) {
+            t = Sh::Op(Op::Ite, [0, 0], vec![Sh::Op(Op::Equal, [0, 0], vec![key.clone(), Sh::Lit(2 * w, k.clone())]), Sh::Lit(wo, v.clone()), t]);
+        }
+        t
+    };
+    let (a, b) = (Sh::Sym(0, Ty::BV(w)), Sh::Sym(1, Ty::BV(w)));
+    let st = |i: u8, t: Ty| Sh::Sym(sysgen::STATE_BASE + i, t);
+    let mut spec = SysSpec { name: format!("probe_{name}_{w}{}", if unsafe_variant { "_unsafe" } else { "" }), pattern: "operator-probe", ..Default::default() };
+    spec.inputs = vec![Ty::BV(w), Ty::BV(w)];
+    spec.anon_inputs = vec![false, false];
+    spec.states = vec![
+        sysgen::StateSpec { ty: Ty::BV(wo), init: None, next: Some(f.clone()) },
+        sysgen::StateSpec { ty: Ty::BV(w), init: None, next: Some(a.clone()) },
+        sysgen::StateSpec { ty: Ty::BV(w), init: None, next: Some(b.clone()) },
+        sysgen::StateSpec { ty: Ty::BV(1), init: Some(Sh::Lit(1, BigUint::from(0u32))), next: Some(Sh::Lit(1, BigUint::from(1u32))) },
+    ];
+    let ne = |x: Sh, y: Sh| Sh::Op(Op::Not, [0, 0], vec![Sh::Op(Op::Equal, [0, 0], vec![x, y])]);
+    spec.bads.push(ne(f.clone(), table(a, b)));
+    spec.bads.push(Sh::Op(Op::And, [0, 0], vec![st(3, Ty::BV(1)), ne(st(0, Ty::BV(wo)), table(st(1, Ty::BV(w)), st(2, Ty::BV(w))))]));
+    Some(spec)
 }
 
 #[derive(Clone, Debug, PartialEq, Eq)]
@@ -139,6 +268,7 @@ fn check_system(rep: &mut Report, seed: u64, index: u64, tier: Tier, oracle_proc
     let spec = spec_for(seed, index);
     rep.count("programs", 1);
     let bounds: Vec<u64> = match (tier, spec.pattern) {
+        (_, "operator-probe") => vec![2],
         (Tier::Quick, "counter-deep") => vec![2, 9],
         (Tier::Quick, _) => vec![1, 4],
         (Tier::Thorough, "counter-deep") => vec![1, 5, 12],
@@ -159,6 +289,18 @@ fn check_system(rep: &mut Report, seed: u64, index: u64, tier: Tier, oracle_proc
             return;
         }
     };
+    if spec.pattern == "operator-probe" {
+        // the table (big-integer evaluator) and RefUnroll (SMT-LIB semantics) are two independent references
+        let unsafe_variant = spec.name.ends_with("_unsafe");
+        match expected_verdict(&oracle, 2) {
+            Some(Verdict::Success) if !unsafe_variant => {}
+            Some(Verdict::Fail(0)) if unsafe_variant => {}
+            other => {
+                rep.undecided.push(format!("ENCODING-ERROR: probe {} - the harness' function table and the reference unrolling disagree ({:?})", spec.name, other.map(|v| v.show())));
+                return;
+            }
+        }
+    }
     for &k in bounds.iter() {
         let Some(expect) = expected_verdict(&oracle, k as usize) else {
             rep.inconc(json!({"system": index, "bound": k, "why": format!("oracle undecided: {:?}", oracle.iter().map(|a| a.short()).collect::<Vec<_>>())}));
@@ -179,6 +321,10 @@ fn check_system(rep: &mut Report, seed: u64, index: u64, tier: Tier, oracle_proc
                     // quick tier: the full profile x mode x simplify matrix at the larger bound, the four
                     // profiles (joint, unsimplified) at the smaller one
                     if !full_matrix && (individually || simplify) {
+                        continue;
+                    }
+                    // operator probes, quick tier: four profiles (joint, unsimplified) + first profile individually + first profile simplified
+                    if tier == Tier::Quick && spec.pattern == "operator-probe" && (individually || simplify) && (pi != 0 || (individually && simplify)) {
                         continue;
                     }
                     // check_constraints only where the constraints are satisfiable at every step (documented assert otherwise)
@@ -226,6 +372,15 @@ pub fn run(tier: Tier, seed: u64, replay: Option<serde_json::Value>) -> i32 {
     let mut rep = Report::new("C02", tier, seed, "translation_validation");
     let n = tier.pick(160u64, 3000u64);
     let mut indices: Vec<u64> = (0..n).collect();
+    // operator probes: every safe variant, every 4th unsafe one; width 3 (quick), widths 3 and 4 (thorough)
+    for pi in 0..probe_count() {
+        if pi % 2 == 0 || pi % 8 == 1 {
+            indices.push(PROBE_BASE + pi);
+            if tier == Tier::Thorough {
+                indices.push(PROBE_BASE + 1000 + pi);
+            }
+        }
+    }
     if let Some(r) = &replay {
         rep.write_files = false;
         indices = r["replay"]["system"]["index"].as_u64().map(|i| vec![i]).unwrap_or_default();
@@ -251,7 +406,7 @@ pub fn run(tier: Tier, seed: u64, replay: Option<serde_json::Value>) -> i32 {
     for p in parts {
         rep.merge(p);
     }
-    rep.extra.insert("bounds".into(), json!({"generated_systems": n, "patterns": sysgen::PATTERNS, "bmc_bounds": tier.pick("k in {1,4} ({2,9} for counters)", "k in {1,3,7,12}"),
+    rep.extra.insert("bounds".into(), json!({"generated_systems": n, "patterns": sysgen::PATTERNS, "operator_probes": {"expressions": probe_exprs(3).iter().map(|(n, _)| n.clone()).collect::<Vec<_>>(), "widths": tier.pick("3", "3 and 4"), "coverage": "complete function table over both operands, combinational and through a register"}, "bmc_bounds": tier.pick("k in {1,4} ({2,9} for counters)", "k in {1,3,7,12}"),
         "profiles": PROFILES.iter().map(|p| p.name()).collect::<Vec<_>>(), "modes": ["joint", "individual"], "simplify": [false, true],
         "note": "supports_const_array is not consulted anywhere in patronus (grep), it spans no behaviour"}));
     rep.extra.insert("functions_encoded".into(), json!(["mc::bmc", "mc::UnrollSmtEncoding", "mc::check_assuming / check_assuming_end", "smt::SmtLibSolverCtx (text protocol, z3 4.8.12 and cvc5 1.0)", "system::transform::simplify_expressions"]));
